@@ -33,11 +33,22 @@ SPEC = Spec(
          "complete drain. After EVERY op the return value, Size() and a canonical dump of the raw storage map are compared with the "
          "Lean model. non-trivial = at least one death landed inside an operation (after one of its storage calls, before it returned). "
          "thorough adds the exhaustive enumeration of all scripts of <= 9 ops incl. the first start (cap 2, request sizer) x every death position x <= 2 deaths. "
+         "Every 4th case (mode=err) is the EXTENSION beyond the property: the k-th storage call of an op returns an error without "
+         "effect (any subset of the calls of an op, mixed with deaths); those cases are tied by the exact differential only, no "
+         "property oracle judges them (stat ext_err_* counters show the give-up points were exercised). The outcome handed to "
+         "OnDone is a random wrap / errors.Join / multierr tree; oc=shut iff the tree contains a shutdown error (Go oracle on the "
+         "real experr.IsShutdownErr + Lean outcomeOf on the printed shape). "
+         "block (go1.26 synctest): the same differential for blockOnOverflow=true: offers that find the queue full run in their "
+         "own goroutine and park in hasMoreSpace.Wait; after every op the run is driven to quiescence, a signalled oldest waiter "
+         "is held at a gate in the storage client until the op's observation is written, then released call by call (`op wake`, "
+         "deaths after the k-th call); random cancellations of blocked offers; requests larger than the capacity. "
          "codec: random values / arrays / truncated, oversized and inconsistent buffers through the four index codec functions. "
          "e2e (monitor, Go oracle): the real QueueSender + QueueBatch + asyncQueue consumers + persistentQueue over the real retrySender "
          "(1h back-off), 1-4 requests whose destination succeeds / rejects permanently / fails retryably; shutdown in BaseExporter order "
          "interrupts the retries (shutdown error), then a second incarnation on the same storage must deliver every interrupted request; "
-         "non-trivial = at least one hand-off was interrupted by shutdown. "
+         "non-trivial = at least one hand-off was interrupted by shutdown. Every 3rd e2e case enables sending_queue::batch with "
+         "min=max size so that every stored request is exported in 2-4 parts, the destination is down at shutdown (the part errors "
+         "are combined into one multi-error of shutdown errors), and the second incarnation must deliver every item. "
          "distinct = distinct op sequences (sha1 of the op lines).",
     trusted_base=[
         "Lean 4.33.0 kernel; axioms per theorem listed under axioms_per_theorem (subset of propext, Classical.choice, Quot.sound)",
@@ -51,6 +62,14 @@ SPEC = Spec(
         "operations on one queue are serialised by persistentQueue.mu, so a sequential model is sound; goroutine-level concurrency of "
         "producers/consumers is C02/C03",
         "harness/c01/pq_test.go (death injection by panic from the storage client, decoding of the raw map) and lib/runner.py (diff)",
+        "translator translators/cmd/pqkeys (go/ast): durable key names, radix of getItemKey, widths / byte order (call sequence) of the "
+        "index codecs, moduli and remainders of the periodic size back-ups -> Gen/PQKeys.lean; the back-up periods are used by the model, "
+        "the rest is pinned by C01_gen_key_names / C01_gen_keys_ok / C01_gen_codec_constants and used by C01_bytes_refine",
+        "blockOnOverflow: cond.go wakes waiters in FIFO order (C02); the model's `wake` label may fire at any time, the harness fires it "
+        "when the real oldest waiter was signalled",
+        "classification of the error handed to OnDone: experr.IsShutdownErr(err) = the error tree contains a shutdown error "
+        "(C01_classification_iff on the model side, direct differential on the real function over wrap/join/multierr trees)",
+        "extension only (storage errors): a storage call that returns an error has no effect on the stored data",
     ],
     assumptions=[
         "storage errors other than death are not injected (the property does not quantify over them); the error fallbacks of "
